@@ -226,6 +226,28 @@ pub fn case_wire(caller: &str, mask: &str, ident: &str) -> Vec<Finding> {
             if !ls.iter().any(|l| l.contains(code) && l.split(' ').any(|t| t == norm)) {
                 out.push(finding("wire:listed", format!("+{} list does not show {:?}: {:?}", letter, norm, ls)));
             }
+            // removal with the same (possibly abbreviated) mask removes the stored,
+            // normalised entry and is announced normalised; then it is set again
+            m!(w.send(0, &format!("MODE #c -{} {}", letter, mask)));
+            let ls = w.take_lines(0);
+            let ann = ls.iter().filter_map(|l| crate::canon::parse_server_line(l)).find(|m| m.cmd == "MODE");
+            match &ann {
+                Some(a) if a.params.len() >= 3 && a.params[2] == norm => {}
+                other => out.push(finding("wire:announce-removal", format!("MODE #c -{} {} announced as {:?}, expected mask {:?}", letter, mask, other.as_ref().map(|m| m.params.clone()), norm))),
+            }
+            let snap = w.snapshot();
+            let ch = snap.channels.iter().find(|c| c.name == "#c");
+            let still: Vec<String> = match (ch, caller) {
+                (Some(c), "ban") | (Some(c), "speak") => c.ban.clone(),
+                (Some(c), "except") => c.exception.clone(),
+                (Some(c), _) => c.invite_exception.clone(),
+                _ => vec![],
+            };
+            if still.contains(&norm) {
+                out.push(finding("wire:removal", format!("-{} {} did not remove the stored mask {:?}: {:?}", letter, mask, norm, still)));
+            }
+            m!(w.send(0, &format!("MODE #c +{} {}", letter, mask)));
+            w.take_all();
             // enforced
             let matches = glob(&norm, &src);
             if caller == "speak" {
